@@ -34,7 +34,7 @@ def _real_replay_j1(inp, k, first, size_hi):
         path = os.path.join(d, 'journal.bin')
         j = J.FileJournal(path)
         ref = J.MemoryJournal()
-        cl, trace, exc, nadd = {}, [], None, 0
+        cl, trace, exc, nadd, cur = {}, [], None, 0, 1
         for i in range(k):
             oi = first if (i == 0 and first is not None) else inp.choice('op%d' % i, len(OPS))
             op = OPS[oi]
@@ -54,7 +54,7 @@ def _real_replay_j1(inp, k, first, size_hi):
                 elif op == 'clear':
                     j.clear(); ref.clear()
                 elif op == 'commit':
-                    j.setRaftCommitIndex(cv); j.onOneSecondTimer()
+                    j.setRaftCommitIndex(cv); j.onOneSecondTimer(); cur = cv
                 else:
                     j._destroy(); j = J.FileJournal(path)
             except Exception as e:
@@ -64,10 +64,12 @@ def _real_replay_j1(inp, k, first, size_hi):
             if exc is not None:
                 break
             cl['s%d_%s_same_as_memory_journal' % (i, op)] = len(j) == len(ref) and all(tuple(j[x]) == tuple(ref[x]) for x in range(len(ref)))
+            cl['s%d_%s_commit_index_is_the_last_one_set' % (i, op)] = j.getRaftCommitIndex() == cur
         if exc is None:
             j._destroy()
             j2 = J.FileJournal(path)
             cl['reopened_same_as_memory_journal'] = len(j2) == len(ref) and all(tuple(j2[x]) == tuple(ref[x]) for x in range(len(ref)))
+            cl['reopened_commit_index_is_the_last_one_set'] = j2.getRaftCommitIndex() == cur
             j2._destroy()
         return Res(cl, obs=dict(trace=trace, real_files=True))
     finally:
@@ -96,7 +98,7 @@ def J1(inp, k, first=None, size_hi=SIZE_HI):
     fs = disk.install_journal(False)
     j = J.FileJournal('jf')
     ref = J.MemoryJournal()
-    cl, trace, exc, nadd = {}, [], None, 0
+    cl, trace, exc, nadd, cur = {}, [], None, 0, 1
     for i in range(k):
         oi = first if (i == 0 and first is not None) else inp.choice('op%d' % i, len(OPS))
         op = OPS[oi]
@@ -122,6 +124,7 @@ def J1(inp, k, first=None, size_hi=SIZE_HI):
             ref.clear()
         elif op == 'commit':
             _, exc = guard(lambda: (j.setRaftCommitIndex(cv), j.onOneSecondTimer()))
+            cur = cv
         else:
             j, exc = guard(J.FileJournal, 'jf')
         trace.append((op, show(size) if op == 'add' else pos, show(exc)))
@@ -129,11 +132,13 @@ def J1(inp, k, first=None, size_hi=SIZE_HI):
         if exc is not None:
             break
         cl['s%d_%s_same_as_memory_journal' % (i, op)] = _journal_equals(j, ref)
+        cl['s%d_%s_commit_index_is_the_last_one_set' % (i, op)] = Eq(j.getRaftCommitIndex(), cur)
     if exc is None:
         j2, exc2 = guard(J.FileJournal, 'jf')
         cl['reopen_no_exception'] = exc2 is None
         if exc2 is None:
             cl['reopened_same_as_memory_journal'] = _journal_equals(j2, ref)
+            cl['reopened_commit_index_is_the_last_one_set'] = Eq(j2.getRaftCommitIndex(), cur)
     return Res(cl, nontrivial=True, obs=lambda: dict(trace=trace, nfiles=len(fs.files)), vars=dict(ops=[t[0] for t in trace]))
 
 
